@@ -294,6 +294,14 @@ _W11 = {
     "C17": " Eleventh-wave addition: listeners whose Accept answers with an error of their own after Close.",
     "C19": " Eleventh-wave addition: network reads that return bytes together with the deadline error.",
 }
+_W12 = {
+    "C07": " Twelfth-wave addition: dial functions that tie the connection to the context they were given.",
+    "C08": " Twelfth-wave addition: a logging hook that panics once at its first write/read/parse call, recovered by the application; the next call on the client must return in bounded time.",
+    "C12": " Twelfth-wave addition: pauses of 55-255 ms inside corrupted replies; foreign leading bytes arriving on their own, the frame after a pause.",
+    "C16": " Twelfth-wave addition: handler mode rewrites_request_then_fails (re-addresses the request object in place, then returns a plain error).",
+    "C17": " Twelfth-wave addition: in a third of the runs the accept, close and error callbacks call Server.Addr() while they run.",
+    "C19": " Twelfth-wave addition: hooks that take 0.6-2 ms of simulated time per call (healthy gap-free replies; only the result is compared with the hook-less twin then).",
+}
 for _k, _v in _W3.items():
     META[_k]["rule"] += _v
 for _k, _v in _W4.items():
@@ -309,4 +317,6 @@ for _k, _v in _W9.items():
 for _k, _v in _W10.items():
     META[_k]["rule"] += _v
 for _k, _v in _W11.items():
+    META[_k]["rule"] += _v
+for _k, _v in _W12.items():
     META[_k]["rule"] += _v
